@@ -13,8 +13,8 @@ so far) are walked, `id()` of every dict / list collected, and
       step's inputs, outputs and the store is compared with what the model answers for that
       position and value (driver commands `c07 flow`, `c07 proj`);
   (c) every argument is compared (deeply, key order included) with a deep copy taken before the
-      call — the only permitted change is the `_id` an insert adds (a changed pipeline is the
-      known finding `agg-literal-alias` when it holds container constants);
+      call — the only permitted change is the `_id` an insert adds (a changed pipeline with
+      container constants is reported under the name of the repaired defect `agg-literal-alias`);
 
 then every object handed over in that step is SCRIBBLED on (marker key in every dict, marker
 appended to every list) and the collection re-read through `find({})` and through the raw
@@ -72,7 +72,9 @@ MODEL_OPS = {
 # positions at which the model says the code does not copy -> the known finding that lists it
 # (proj-id-alias, proj-op-alias, result-id-alias, proj-arg-mutated were fixed by 5ac4c3c: a
 # recurrence is a VIOLATION)
-FINDING_OF_POS = {'aggLiteral': 'agg-literal-alias', 'cursorCache': 'cursor-cache-alias'}
+# (agg-literal-alias was fixed by 2eb2452: the model copies at aggLiteral, sharing there is a
+# VIOLATION)
+FINDING_OF_POS = {'cursorCache': 'cursor-cache-alias'}
 MARK = '__c07_scribble__'
 
 
